@@ -247,3 +247,64 @@ Definition from_arrays (c : cfg) (w : Z) (V : list (list Z)) (E : list edge) (F 
     else if existsb (existsb (fun x => fa_face_index_bad x n)) F then Err EArr
     else if existsb (existsb (fun x => fa_cell_index_bad x n)) C then Err EArr
     else instanciate c None (mkRaw V' E [] F [] [] C [] [] [] [])).
+
+(* ---------------------------------------------------------------- editing a re-wrapped mesh before building it again
+   (what the subdivision editors and mesh.save do on RawMeshData(mesh)): clear() of containers (generated from the source),
+   append / item assignment / removal of the last element *)
+Inductive edit :=
+| EClearFC | EClearCC | EClearCF            (* face_corners.clear(), cell_corners.clear(), cell_faces.clear() *)
+| EClearEdges | EClearFaces | EClearCells   (* DataContainer.clear() *)
+| EAddVertex (v : list Z) | EAddEdge (e : edge) | EAddFace (f : list Z) | EAddCell (c : list Z)
+| ESetFace (i : Z) (f : list Z) | ESetCell (i : Z) (c : list Z)   (* container[i mod len] = row *)
+| EPopFace | EPopCell.
+
+Fixpoint set_nth {A} (n : nat) (x : A) (l : list A) : list A :=
+  match l, n with
+  | [], _ => []
+  | _ :: t, O => x :: t
+  | y :: t, S n' => y :: set_nth n' x t
+  end.
+Definition set_mod {A} (i : Z) (x : A) (l : list A) : list A :=
+  match l with [] => [] | _ => set_nth (Z.to_nat (i mod zlen l)) x l end.
+
+Definition apply_edit (e : edit) (r : raw) : raw :=
+  match e with
+  | EClearFC => let ea := corner_clear (fc_elem r) (fc_adj r) in
+      mkRaw (vertices r) (edges r) (eattrs r) (faces r) (fst ea) (snd ea) (cells r) (cc_elem r) (cc_adj r) (cf_elem r) (cf_adj r)
+  | EClearCC => let ea := corner_clear (cc_elem r) (cc_adj r) in
+      mkRaw (vertices r) (edges r) (eattrs r) (faces r) (fc_elem r) (fc_adj r) (cells r) (fst ea) (snd ea) (cf_elem r) (cf_adj r)
+  | EClearCF => let ea := corner_clear (cf_elem r) (cf_adj r) in
+      mkRaw (vertices r) (edges r) (eattrs r) (faces r) (fc_elem r) (fc_adj r) (cells r) (cc_elem r) (cc_adj r) (fst ea) (snd ea)
+  | EClearEdges =>
+      mkRaw (vertices r) (data_clear (edges r)) (if data_clear_attrs then [] else eattrs r) (faces r) (fc_elem r) (fc_adj r)
+            (cells r) (cc_elem r) (cc_adj r) (cf_elem r) (cf_adj r)
+  | EClearFaces =>
+      mkRaw (vertices r) (edges r) (eattrs r) (data_clear (faces r)) (fc_elem r) (fc_adj r)
+            (cells r) (cc_elem r) (cc_adj r) (cf_elem r) (cf_adj r)
+  | EClearCells =>
+      mkRaw (vertices r) (edges r) (eattrs r) (faces r) (fc_elem r) (fc_adj r)
+            (data_clear (cells r)) (cc_elem r) (cc_adj r) (cf_elem r) (cf_adj r)
+  | EAddVertex v =>
+      mkRaw (vertices r ++ [v]) (edges r) (eattrs r) (faces r) (fc_elem r) (fc_adj r) (cells r) (cc_elem r) (cc_adj r) (cf_elem r) (cf_adj r)
+  | EAddEdge e =>
+      mkRaw (vertices r) (edges r ++ [e]) (map (fun na => (fst na, attr_expand 1 (snd na))) (eattrs r)) (faces r)
+            (fc_elem r) (fc_adj r) (cells r) (cc_elem r) (cc_adj r) (cf_elem r) (cf_adj r)
+  | EAddFace f =>
+      mkRaw (vertices r) (edges r) (eattrs r) (faces r ++ [f]) (fc_elem r) (fc_adj r) (cells r) (cc_elem r) (cc_adj r) (cf_elem r) (cf_adj r)
+  | EAddCell c =>
+      mkRaw (vertices r) (edges r) (eattrs r) (faces r) (fc_elem r) (fc_adj r) (cells r ++ [c]) (cc_elem r) (cc_adj r) (cf_elem r) (cf_adj r)
+  | ESetFace i f =>
+      mkRaw (vertices r) (edges r) (eattrs r) (set_mod i f (faces r)) (fc_elem r) (fc_adj r) (cells r) (cc_elem r) (cc_adj r) (cf_elem r) (cf_adj r)
+  | ESetCell i c =>
+      mkRaw (vertices r) (edges r) (eattrs r) (faces r) (fc_elem r) (fc_adj r) (set_mod i c (cells r)) (cc_elem r) (cc_adj r) (cf_elem r) (cf_adj r)
+  | EPopFace =>
+      mkRaw (vertices r) (edges r) (eattrs r) (removelast (faces r)) (fc_elem r) (fc_adj r) (cells r) (cc_elem r) (cc_adj r) (cf_elem r) (cf_adj r)
+  | EPopCell =>
+      mkRaw (vertices r) (edges r) (eattrs r) (faces r) (fc_elem r) (fc_adj r) (removelast (cells r)) (cc_elem r) (cc_adj r) (cf_elem r) (cf_adj r)
+  end.
+
+Definition apply_edits (es : list edit) (r : raw) : raw := fold_left (fun r e => apply_edit e r) es r.
+
+(* RawMeshData(mesh), edits, build again *)
+Definition rebuild (c : cfg) (dim : option Z) (es : list edit) (k : Z) (r : raw) : res (Z * raw) :=
+  instanciate c dim (apply_edits es (rewrap k r)).
